@@ -312,9 +312,15 @@ func ackOffline(t *testing.T, h *H) {
 			emitReturned := false
 			synctest.Test(t, func(t *testing.T) {
 				r := newRig(nil)
-				r.server.OnConnection(func(s sio.ServerSocket) {
-					s.OnEvent("q", func(id int, b []sio.Binary, ack func(int)) { mu.Lock(); srvGot = append(srvGot, id); mu.Unlock(); ack(id * 10) })
+				onAdmission(r.server, func(s sio.ServerSocket) {
+					s.OnEvent("q", func(id int, b []sio.Binary, ack func(int)) {
+						mu.Lock()
+						srvGot = append(srvGot, id)
+						mu.Unlock()
+						ack(id * 10)
+					})
 				})
+				r.server.OnConnection(func(s sio.ServerSocket) {})
 				m := r.manager([]string{"polling"}, &sio.ManagerConfig{NoReconnection: true})
 				c := m.Socket("/", nil)
 				atts := make([]sio.Binary, natt)
@@ -396,10 +402,10 @@ func ackOffline(t *testing.T, h *H) {
 // a protocol-level peer repeats and invents ACK frames
 func ackRawPeer(t *testing.T, h *H) {
 	for _, script := range [][]string{
-		{"30[1]", "30[2]"},               // duplicate
-		{"37[1]"},                        // invented id
-		{"30[1]", "31[5]", "30[9]"},      // two acks outstanding, a duplicate of the first after the second
-		{"30[\"notanint\"]", "30[1]"},    // reply that does not decode, then a proper one
+		{"30[1]", "30[2]"},            // duplicate
+		{"37[1]"},                     // invented id
+		{"30[1]", "31[5]", "30[9]"},   // two acks outstanding, a duplicate of the first after the second
+		{"30[\"notanint\"]", "30[1]"}, // reply that does not decode, then a proper one
 		{"61-0[{\"_placeholder\":true,\"num\":0}]", "<bin>", "30[3]"}, // binary ack for id 0 then a text duplicate
 	} {
 		obs := &ackObs{inv: map[int][]string{}}
